@@ -12,8 +12,11 @@ PROPERTY = "C46"
 ASSUMPTIONS = [
     "host is a legal USB 3 host for a non-bursting bulk IN endpoint: one outstanding IN request (ACK TP with "
     "NumP=1 and the next expected sequence number); a well received DP is acknowledged with seq+1 (NumP 1 or 0), "
-    "a badly received one with the same seq, Rty=1, NumP=1 (at most twice per packet); after NRDY it does not "
-    "poll until ERDY; its TPs arrive >= 3 cycles after the event they react to",
+    "a badly received one with the same seq, Rty=1, NumP=1 (at most twice per packet); after NRDY it either waits "
+    "for the ERDY or resumes polling on its own after a generated delay (USB 3.2 8.10.1 allows a host to resume "
+    "transactions to a flow-controlled endpoint without an ERDY); in a quarter of the cases (repoll_race) such a re-poll "
+    "may also race with the endpoint's pending / in-flight ERDY -- the unanswered re-poll in that window is the "
+    "recorded known finding; its TPs arrive >= 3 cycles after the event they react to",
     "input stream: valid held and payload stable until ready; only the word carrying `last` may be partial; a "
     "chunk without `last` is a multiple of four bytes",
     "handshakes_out.ready/done behave like TransactionPacketGenerator (request taken when strobed while ready, "
@@ -66,6 +69,12 @@ def _case():
         hplan=st.lists(st.fixed_dictionaries(dict(
             verdict=weighted([("ack_next", 5), ("ack_stop", 2), ("retry", 2)]),
             delay=weighted([(2, 3), (3, 2), (5, 2), (9, 1), (25, 1), (70, 1)]))), min_size=1, max_size=8),
+        # host behaviour during flow control, one entry per NRDY episode (cyclic): 0 = wait for the ERDY,
+        # d > 0 = resume polling d cycles after the NRDY arrived (if the awaited packet is still incomplete then)
+        repoll=st.lists(weighted([(0, 4), (1, 2), (2, 1), (4, 2), (9, 2), (20, 2), (45, 1)]), min_size=1, max_size=5),
+        # re-polls may also fall into the window in which the endpoint's ERDY is pending / in flight (recorded known
+        # finding `repoll-during-flow-control-unanswered-while-erdy-pending`, see known_findings.json)
+        repoll_race=weighted([(0, 3), (1, 1)]),
         noise=st.lists(st.fixed_dictionaries(dict(
             gap=st.integers(0, 60), dep=st.integers(0, 14), seq=bits(5), nump=bits(1), rty=bits(1))), max_size=3),
     ))
@@ -99,7 +108,9 @@ class InEndpointSub(Sub):
     budget = {"quick": 4800, "thorough": 80000}
     shrink_budget = 100
     rule = ("closed-loop histories of SuperSpeedStreamInEndpoint(max_packet_size 16/32/64/1024) against a legal "
-            "host BFM (IN requests, ACK-and-continue, ACK-and-stop, retry requests, NRDY/ERDY flow control, stray "
+            "host BFM (IN requests, ACK-and-continue, ACK-and-stop, retry requests, NRDY/ERDY flow control in which the "
+            "host either waits for the ERDY or resumes polling the still-empty endpoint on its own after 1..45 cycles "
+            "-- repeatedly, each such IN request must again be answered by NRDY --, stray "
             "TPs for other endpoints), a stream producer (1..4 chunks of k*mps+r bytes with/without `last`, gaps; one "
             "case in four runs 28..66 extra full packets so that the 5-bit sequence number wraps), "
             "a TP-generator model and a back-pressuring packet transmitter; oracle over the event log: every IN "
@@ -138,7 +149,8 @@ class InEndpointSub(Sub):
         assert not leftover
         nwords = sum((len(t["data"]) + 3) // 4 for t in trs)
         sgaps = [min(g, 1) for g in case["sgaps"]] if mps >= 1024 else case["sgaps"]     # keep 1 KiB cases affordable
-        bfm = InEndpointBfm(dict(case, transfers=trs, sgaps=sgaps), ep, len(expected))
+        bfm = InEndpointBfm(dict(case, transfers=trs, sgaps=sgaps, done_words=[p["done_word"] for p in expected]),
+                            ep, len(expected))
         txr = case["txr"]
         per_packet = (mps // 4) * len(txr["pat"]) + txr["stall"] + 2 * max(d["delay"] for d in case["hplan"]) + 80
         budget = 500 + case["sdelay"] + case["hstart"] + nwords * (max(sgaps) + 2) + \
@@ -162,6 +174,7 @@ def judge(bfm, expected, mps, ep):
     acked = 0
     flow = False
     outstanding = None
+    outstanding_in_flow = False
     labels = set()
     n_retry = n_flow = n_zlp = n_erdy = 0
     last_dp = None
@@ -172,8 +185,11 @@ def judge(bfm, expected, mps, ep):
                 labels.add("stray-tp-other-endpoint")
                 continue
             outstanding = e if e["nump"] else None
+            outstanding_in_flow = flow
             if not e["nump"]:
                 labels.add("ack-and-stop")
+            elif flow:
+                labels.add("repoll-during-flow-control")
         elif k == "tp_req" and e["kind"] == "nrdy":
             if outstanding is None:
                 return fail(f"cycle {e['t']}: NRDY requested although no IN request is outstanding",
@@ -264,6 +280,10 @@ def judge(bfm, expected, mps, ep):
             sig = "in-request-unanswered"
             if outstanding is not None and not outstanding.get("fresh") and (c is None or c > outstanding["t"]):
                 sig = "ack-with-in-request-unanswered-when-empty"
+            elif outstanding is not None and (outstanding_in_flow or outstanding.get("repoll")):
+                # the host resumed polling a flow-controlled endpoint (no ERDY seen yet) and got no answer
+                sig = "repoll-during-flow-control-unanswered-when-empty" if (c is None or c > outstanding["t"]) \
+                    else "repoll-during-flow-control-unanswered-while-erdy-pending"
             return fail(f"IN request of cycle {outstanding['t'] if outstanding else '?'} got neither a data packet "
                         f"nor NRDY within 40 cycles (packet {acked} complete at {c})", signature=sig)
     if acked < len(expected):
